@@ -32,6 +32,11 @@ HEADER = ("From Coq Require Import List ZArith Bool.\n"
           "From RL4CO Require Import Harness.HC06_improve.\n"
           "Import ListNotations.\nOpen Scope Z_scope.\n")
 KIND = {"tspkopt": 0, "pdp_rr": 1}
+# Which model the code is compared with.  "current" = the checkers as they are in /repo (permutation test only: the refuted
+# soundness statements are genuine findings).  "repaired" = Env/ImproveCheckerFix.v (walk from node 0 must reach every node),
+# proved to accept exactly the valid solutions; switch to it in the same change that repairs /repo.
+MODEL_OF_CODE = "repaired"   # /repo carries the fix: commits b35ddfb (TSPkopt) and 90f2aa9 (PDP ruin-repair) since 2026-10-01
+CHECK_FN = {"current": "check_verdict", "repaired": "check_verdict_fix"}
 SIG_MULTI = "%s: checker-accepts-multi-cycle-successor-array"
 # the witnesses of C06_improve_tspkopt_checker_sound_refuted / C06_improve_pdprr_checker_sound_refuted
 WITNESSES = [("tspkopt", [1, 0, 3, 2], "C06_improve_tspkopt_checker_sound_refuted"),
@@ -317,7 +322,7 @@ def run_unit(ctx, proofs_ok):
     torch.set_num_threads(2)
     thorough = ctx.tier == "thorough"
     real = Real(torch)
-    unit = {"theorems": "Properties/C06_improve.v", "harness": "Harness/HC06_improve.v (check_verdict)",
+    unit = {"theorems": "Properties/C06_improve.v", "harness": "Harness/HC06_improve.v (%s)" % CHECK_FN[MODEL_OF_CODE], "model_of_code": MODEL_OF_CODE,
             "observable": "TSPkoptEnv / PDPRuinRepairEnv .check_solution_validity(td, None) returning vs raising"}
     ctx.rule += (" [improve] TSPkoptEnv / PDPRuinRepairEnv checkers (they read td['rec_best']): (a) real tds of real episodes (reset + 7 "
                  "(thorough 14) env-sampler moves; k_max 2/3/4(/5), n 5..21 (thorough ..51), batch 1..6, init random/greedy), (b) every "
@@ -351,7 +356,7 @@ def run_unit(ctx, proofs_ok):
         # 4 shards, cases dealt round-robin so that the large arrays (generated last) are spread over all of them
         S = 4
         deal = sorted(range(len(cases)), key=lambda i: i % S)
-        out = coq_eval_shards("cases_C06_improve", HEADER, "chk_case", "check_verdict", [case_lit(cases[i]) for i in deal],
+        out = coq_eval_shards("cases_C06_improve", HEADER, "chk_case", CHECK_FN[MODEL_OF_CODE], [case_lit(cases[i]) for i in deal],
                               shard=-(-len(cases) // S))
         codes = [0] * len(cases)
         for i, code in zip(deal, out):
@@ -396,8 +401,10 @@ def run_unit(ctx, proofs_ok):
             code, pc, c["env"], c["rows"]))
 
     # ---- findings: dedicated witnesses first (stable replays), then everything else, smallest input first
-    reported = report(ctx, [f for f in fails if f[0]["src"].startswith("witness:")])
-    reported += report(ctx, sorted([f for f in fails if not f[0]["src"].startswith("witness:")], key=lambda f: size_key(f[0])))
+    done = set()
+    reported = report(ctx, [f for f in fails if f[0]["src"].startswith("witness:")], done)
+    reported += report(ctx, sorted([f for f in fails if not f[0]["src"].startswith("witness:")], key=lambda f: size_key(f[0])), done)
+    unit["signatures_reported"] = sorted(done)
     unit["witnesses_on_the_real_code"] = [{"env": c["env"], "rec_best": c["rows"][0], "theorem": c["theorem"],
                                            "accepted_by_the_real_checker": c["accepted"], "fault": classify(c["env"], c["rows"][0])} for c in wit]
     for c in wit:
@@ -416,7 +423,8 @@ def run_unit(ctx, proofs_ok):
         ctx.extra.setdefault("first_disagreements", []).append({"unit": UNIT, "env": c["env"], "rec_best": c["rows"], "code": code,
                                                                 "real": "returns" if c["accepted"] else "raises", "source": c["src"]})
 
-    # ---- search: model or proof broken and nothing concrete yet -> larger sample through the python specification
+    # ---- search: model or proof broken and nothing concrete (beyond the two recorded mechanisms) yet -> larger sample
+    #      through the python specification
     if (differ or codes is None or not proofs_ok or crashes) and not reported:
         t2 = time.time()
         more = stream_faults(rng, real, True) + (stream_exhaustive(real, True) if not thorough else []) + stream_episodes(torch, rng, real, True)[0]
@@ -426,7 +434,7 @@ def run_unit(ctx, proofs_ok):
             ctx.seen({"unit": UNIT, "env": c["env"], "rows": c["rows"], "search": True}, nontrivial=len(c["rows"][0]) >= 2)
             if pc:
                 sf.append((c, pc, faults, True))
-        report(ctx, sorted(sf, key=lambda f: size_key(f[0])))
+        report(ctx, sorted(sf, key=lambda f: size_key(f[0])), done)
         unit["search"] = {"cases": len(more), "failing": len(sf), "wall_s": round(time.time() - t2, 1)}
 
     for c in (wit + epi[:1] + flt[:2]):
@@ -438,16 +446,22 @@ def run_unit(ctx, proofs_ok):
     ctx.units[UNIT] = unit
 
 
-def report(ctx, fails):
-    n = 0
+def report(ctx, fails, done):
+    """one ctx.failure per signature (the first = smallest input); returns how many signatures other than the two recorded
+    multi-cycle mechanisms were reported"""
+    new = 0
     for c, code, faults, differs in fails:
         sig = signature(c, code, faults, differs)
+        if sig in done:
+            continue
+        done.add(sig)
         rep = replay_of(c, code, faults)
         if c.get("theorem"):
             rep["coq"] = c["theorem"]
         ctx.failure(sig, rep, tag=UNIT)
-        n += 1
-    return n
+        if sig not in (SIG_MULTI % "tspkopt", SIG_MULTI % "pdp_rr"):
+            new += 1
+    return new
 
 
 # ------------------------------------------------------------------------------------------------ ./check --replay
